@@ -98,7 +98,7 @@ Section Ids.
     destruct (Hw _ _ _ _ Hs eq_refl) as [Z1 Z2]; [unfold lifted0; rewrite Hl0; exact Hl|]. split; [simpl; exact Z1 | exact Z2].
   Qed.
 
-  (* the repaired placement of a continuation under binders (fix <commitcap>): < mu a. w(a) | cont > *)
+  (* the repaired placement of a continuation under binders (fix d5d4151): < mu a. w(a) | cont > *)
   Lemma z_guard : forall binders (w : cterm -> M cstmt) lty,
     (forall cont st0 s st0', w cont st0 = Ok (s, st0') -> zt cont -> lifted0 st0 -> zs s /\ lifted0 st0') ->
     forall cont st s st', guard_capture false binders w lty cont st = Ok (s, st') -> zt cont -> lifted0 st -> zs s /\ lifted0 st'.
